@@ -653,7 +653,7 @@ def _exec_closure(repo):
 
 def check_no_swallow(chk):
     """C09.H: the statement-limit error (a BareScriptRuntimeError) raised below a try must not be absorbed by a handler"""
-    from ..raises import handler_names, handler_reraises
+    from ..raises import handler_names, handler_fate
     mods, reach = _exec_closure(chk.repo)
     n = 0
     for mod in mods:
@@ -681,12 +681,16 @@ def check_no_swallow(chk):
                 for h in tr.handlers:
                     names = handler_names(h)
                     if names is None or names & {'Exception', 'BaseException', 'BareScriptRuntimeError'}:
-                        verdict = (h, handler_reraises(h) or all(isinstance(s, ast.Raise) for s in h.body[-1:]) and isinstance(h.body[-1], ast.Raise))
+                        verdict = (h, handler_fate(h, 'BareScriptRuntimeError'))
                         break
                 if verdict is None:
                     chk.ok('C09.H', f'{mod.name}.{fname}: try around {norm(execs[0])[:50]} has no handler that can catch the statement-limit error')
-                elif verdict[1]:
-                    chk.ok('C09.H', f'{mod.name}.{fname}: the first handler matching BareScriptRuntimeError around {norm(execs[0])[:50]} re-raises')
+                elif verdict[1] in ('reraise', 'other'):
+                    chk.ok('C09.H', f'{mod.name}.{fname}: the first handler matching BareScriptRuntimeError around {norm(execs[0])[:50]} '
+                           f'{"re-raises it" if verdict[1] == "reraise" else "raises (the run still aborts)"}')
+                elif verdict[1] == 'unknown':
+                    chk.unrec('C09.H', f'{mod.name}.{fname}: what the handler {norm(verdict[0].type) if verdict[0].type is not None else "(bare)"} does with a '
+                              f'BareScriptRuntimeError is not understood', mod.rel)
                 else:
                     h = verdict[0]
                     chk.bad('C09.H', mod, fname, f'except {norm(h.type) if h.type is not None else "(bare)"} around {norm(execs[0])[:70]}',
